@@ -44,6 +44,8 @@ def witnesses(tier, seed):
                             for t in (types if (M + K + N) % 2 == 0 else [types[n % 4]]):
                                 W.append(mk(t, M, K, N, lt, rt))
     extra = [(8, 8, 9), (9, 9, 9), (9, 8, 17), (16, 16, 16), (17, 17, 17), (5, 13, 12), (13, 5, 15), (4, 16, 31)]
+    # later row blocks of the masked kernels (AVX2 / AVX-512): M beyond the first big block, N with a masked remainder of 2 or more lanes
+    extra += [(M, K, N) for M in (13, 15, 21) for K in (8, 12) for N in (6, 7, 11)] + [(14, 16, 15), (22, 9, 19)]
     # wide results: 3, 4 and 5 vectors per row block for the narrow ISAs, mask variants (coverage accounting: interior_block_tmatmul_impl<numSIMDCols=3..5>)
     extra += [(6, 6, 6 + 0 * k) for k in ()] + [(9, 9, 10), (9, 9, 12), (6, 7, 20), (10, 10, 24), (9, 12, 40), (13, 8, 48)]
     if tier != 'quick':
